@@ -43,9 +43,9 @@ with open(os.path.join(V, "seeded", "RESULTS.md"), "w") as f:
     f.write("# Seeded changes: which check reports which change\n\n")
     f.write("Every change below was confirmed by `tools/verify_seed.sh` (builds; whole suite passes with it; its demonstration fails\n"
             "with it and passes without it). *first run* = what the owning property's check reported the first time the change was\n"
-            "applied (rounds 2, 3, 4 and 6: those changes were produced after the checks existed and without knowledge of them).\n"
+            "applied (rounds 2, 3, 4, 6 and 7: those changes were produced after the checks existed and without knowledge of them).\n"
             "*now* = rules of the owning check that report it on the committed checker (`tools/seedrun.sh`).\n\n")
-    for rnd, label in ((2, "Round 2 (independent, after all checks existed)"), (3, "Round 3 (independent, after the round-2 strengthening)"), (4, "Round 4 (independent, after the round-3 strengthening; agents were told the obvious ideas were used and asked for second-order changes)"), (6, "Round 6 (independent, after the white-box hardening round W5)")):
+    for rnd, label in ((2, "Round 2 (independent, after all checks existed)"), (3, "Round 3 (independent, after the round-2 strengthening)"), (4, "Round 4 (independent, after the round-3 strengthening; agents were told the obvious ideas were used and asked for second-order changes)"), (6, "Round 6 (independent, after the white-box hardening round W5)"), (7, "Round 7 (independent)")):
         rr = [r for r in rows if r[2] == rnd]
         if not rr:
             continue
